@@ -26,7 +26,7 @@ D1Quick == {
   Cmp(x, "<", y), U("LogNot", bb), N("LogOr", << bb, Cmp(x, "==", z) >>),
   IfE(bb, x, y), N("Min", << x, y >>), Call(ff, << x >>),
   CallKw(gg, << x >>, << KwArg("k2", y) >>), B("Sub", tt, KI(1)), Look(oo, "p"),
-  CSE0(N("Sum", << x, KI(2) >>)), N("Tup", << x, y >>) }
+  CSE0(N("Sum", << x, KI(2) >>)), N("Tup", << x, y >>), N("Tup", << KI(1) >>), V("m") }
 D1More == {
   N("Sum", << x, KI(2), z >>), N("Product", << x, y >>), B("Quotient", x, KI(2)),
   B("Quotient", KI(2), z), B("FloorDiv", KI(-1), x), B("Remainder", x, y),
